@@ -36,7 +36,34 @@ Example (file 5 in level 0 holds a and c, file 3 in level 1 holds b):
   seek.charge 6 _ - 5@61/5@63/6@61/5/p/01,63/6/p/02|3@62/2@62/2@62/2/p/03|_|_|_|_|_ 62/10,61/10,62/1
   → `0:5 - -`
 -/
+def parsePair (s : String) : Option (Option (Nat × Nat)) :=
+  if s = "-" then some none else
+  match s.splitOn ":" with
+  | [a, b] => match a.toNat?, b.toNat? with
+    | some x, some y => some (some (x, y))
+    | _, _ => none
+  | _ => none
+
+/-
+`seek.init <file size>`  → the seek budget of a new table file (`initialAllowed`)
+`seek.update <allowed> <toCompact> <charge>`
+  one `Version::update_stats`: `<allowed>` the charged file's counter (an integer), `<toCompact>`
+  the version's `file_to_compact` as `<file>:<level>` or `-`, `<charge>` as `<level>:<file>` or `-`;
+  answers `<allowed'> <toCompact'> <true|false>`
+-/
 def seekCmd : List String → Option String
+  | ["seek.init", size] => size.toNat?.map fun n => toString (initialAllowed n)
+  | ["seek.update", allowed, tc, charge] =>
+    match allowed.toInt?, parsePair tc, parsePair charge with
+    | some a, some t, some c =>
+      let st : SeekState := { allowed := fun _ => a, toCompact := t }
+      let ch : Option (Nat × File) := c.map fun (l, n) =>
+        (l, { num := n, smallest := ([], 0), largest := ([], 0), entries := [] })
+      let (st', b) := updateStats st ch
+      let num := match c with | some (_, n) => n | none => 0
+      let tcs := match st'.toCompact with | some (n, l) => s!"{n}:{l}" | none => "-"
+      some s!"{st'.allowed num} {tcs} {b}"
+    | _, _, _ => none
   | ["seek.charge", lastSeq, mem, imm, levels, queries] =>
     match lastSeq.toNat?, parseEntries mem, parseImm imm, parseLevels levels,
           (queries.splitOn ",").mapM parseKey with
